@@ -258,6 +258,8 @@ func c13EvalInner(cs c13Case) (string, string) {
 		err = quickfix.ParseMessageWithDataDictionary(parsed, bytes.NewBuffer(wire), nil, c13Dicts[cs.Dict])
 	case 2:
 		err = quickfix.ParseMessageWithDataDictionary(parsed, bytes.NewBuffer(wire), c13Dicts["FIXT11"], c13Dicts[cs.Dict])
+	case 3: // the defining dictionary passed in both positions (as for a FIX 4.x session; also what a caller with one dictionary does)
+		err = quickfix.ParseMessageWithDataDictionary(parsed, bytes.NewBuffer(wire), c13Dicts[cs.Dict], c13Dicts[cs.Dict])
 	}
 	ctx := fmt.Sprintf("%s/%s group %d mode %d: %s", cs.Dict, cs.MsgType, cs.Group.Tag, cs.Mode, fixscan.Pretty(wire))
 	if err != nil {
@@ -363,7 +365,7 @@ func runC13(c *core.Ctx) {
 		c.EngineError(err.Error())
 		return
 	}
-	c.SetRule("(a) generated templates up to depth 3 with <=3 members per level, optional members present/absent, 0-2 entries per level, the group first/middle/last in the body, followed by a parent-group member / a body field / the trailer, parsed without dictionary; (b) every group of every message of every shipped dictionary (independent XML walk): 1 and 2 entries, nested groups with 0 and 1 entries, optional members absent/present, with the nearest lower and higher body fields of that message, parsed without dictionary, with the defining dictionary, and (FIX 5.x) with transport + defining dictionary; written through the API, read back with the same template — also with one template object tree whose nested group objects the application itself filled (first entry of each level), and with member values that begin with or contain '='")
+	c.SetRule("(a) generated templates up to depth 3 with <=3 members per level, optional members present/absent, 0-2 entries per level, the group first/middle/last in the body, followed by a parent-group member / a body field / the trailer, parsed without dictionary; (b) every group of every message of every shipped dictionary (independent XML walk): 1 and 2 entries, nested groups with 0 and 1 entries, optional members absent/present, with the nearest lower and higher body fields of that message, parsed without dictionary, with the defining dictionary, (FIX 5.x) with transport + defining dictionary, and with the defining dictionary in both positions; written through the API, read back with the same template — also with one template object tree whose nested group objects the application itself filled (first entry of each level), and with member values that begin with or contain '='")
 	c.Assume("values are opaque strings (no validation involved)", "the first member of a group is its delimiter and always present", "group members declared twice in one group are used once")
 	jobs := make(chan c13Case, 4096)
 	var evals int64
@@ -436,9 +438,9 @@ func runC13(c *core.Ctx) {
 	groupsSeen := 0
 	for _, dn := range c09DictNames {
 		ws := c13Walks[dn]
-		modes := []int{0, 1}
+		modes := []int{0, 1, 3}
 		if strings.HasPrefix(dn, "FIX50") {
-			modes = []int{0, 1, 2}
+			modes = []int{0, 1, 2, 3}
 		}
 		for mi, m := range ws.Messages {
 			if false && mi < 0 {
